@@ -27,6 +27,73 @@ def summary(ctx, F, body, inline_f32=True):
     return ps
 
 
+def main_path(ctx, rule, inst, body, ps):
+    """The path that carries the interpolation formula.  Further return paths are accepted only as exact shortcuts: a path
+    taken under `x == 0.0` that returns a, under `x == 1.0` that returns b, or under `a == b` that returns a (or b) - the
+    cases in which the formula yields that very value.  Any other guard (an inequality, a tolerance) changes the function
+    on a set of inputs and is reported.  Returns the main path, or None when the shape was reported."""
+    rets = [p for p in ps if p.outcome == "return"]
+    if len(rets) == 1:
+        return rets[0]
+
+    def special(t, v):
+        """('x0' | 'x1' | 'same', holds) for an exact test, else None"""
+        if t[0] == "bin" and t[1] in ("Eq", "Ne") and v in (0, 1):
+            holds = (v == 1) == (t[1] == "Eq")
+            pair = (t[2], t[3])
+            for a_, b_ in (pair, pair[::-1]):
+                if a_ == X and pse.is_const(b_) and isinstance(b_[2], tuple) and b_[2][0] == "f" and b_[2][2] in (0.0, 1.0):
+                    return ("x0" if b_[2][2] == 0.0 else "x1", holds)
+            if set(pair) == {A, B}:
+                return ("same", holds)
+        return None
+    mains, bad = [], []
+    for p in rets:
+        # the checked conversion's own Some / None decision (`expect`) is part of the formula, not a guard
+        conds = [(t, v, s_) for (t, v, s_) in p.conds if not (t[0] == "discr" and t[1][0] == "call")]
+        facts = [special(t, v) for (t, v, s_) in conds]
+        if any(f is None for f in facts):
+            bad.append("guard %s" % [show(t) for (t, v, s_) in conds if special(t, v) is None])
+            continue
+        held = [f[0] for f in facts if f[1]]
+        if not held:
+            mains.append(p)
+            continue
+        want = {"x0": (A,), "x1": (B,), "same": (A, B)}[held[0]]
+        got = p.ret
+        if got[0] == "agg" and got[3] == "Some":
+            got = got[4][0][1]
+        if got not in want:
+            bad.append("under %s the shortcut returns %s" % (held[0], show(p.ret)))
+    ok = len(mains) == 1 and not bad
+    if not ok:
+        ctx.ob(rule, inst, False,
+               "besides its formula a lerp may only short-cut the exact cases x == 0 (-> a), x == 1 (-> b), a == b (-> a); "
+               "found %d formula path(s), %s" % (len(mains), bad), body["span"], what="lerp-shape")
+        return None
+    return mains[0]
+
+
+def lerp_formula(ctx, rule, inst, F, b, _cache={}):
+    """the value of the impl's formula path as a term over (a, b, x); a delegation to the f32 impl is replaced by that impl's
+    own formula (the f32 impl's shortcuts are judged where they are written, not once more in every integer impl)"""
+    ps = summary(ctx, F, b, inline_f32=False)
+    mp = main_path(ctx, rule, inst, b, ps)
+    if mp is None:
+        return None
+    r = mp.ret
+    delegated = [x for x in pse.subterms(r) if x[0] == "call" and x[1] == "<f32 as %s>::lerp" % LERP and len(x[2]) == 3]
+    if delegated and b.get("impl_self") != "f32":
+        b32 = F.one(crate="mina_core", name="lerp", impl_trait=LERP, impl_self="f32")
+        f32r = lerp_formula(ctx, rule, inst + "/via-f32", F, b32)
+        if f32r is None:
+            return None
+        strip = lambda a_: a_[1] if a_[0] == "&" else a_
+        for c in delegated:
+            r = terms.subst(r, {c: terms.subst(f32r, {A: strip(c[2][0]), B: strip(c[2][1]), X: c[2][2]})})
+    return r
+
+
 def value_of(p):
     """the value a return path yields, through Option::expect's Some payload"""
     return p.ret
@@ -40,12 +107,9 @@ def rule_endpoints(ctx, F, rule="R1"):
         if ty not in INT_TYPES and ty not in ("f32", "f64"):
             continue
         n += 1
-        ps = [p for p in summary(ctx, F, b) if p.outcome == "return"]
-        if len(ps) != 1:
-            ctx.ob(rule, "endpoints/%s" % ty, False, "lerp for %s must have one normal return path (has %d)" % (ty, len(ps)),
-                   b["span"], what="lerp-shape")
+        r = lerp_formula(ctx, rule, "endpoints/%s" % ty, F, b)
+        if r is None:
             continue
-        r = ps[0].ret
         for xv, want, nm in ((0.0, A, "0"), (1.0, B, "1")):
             t = terms.subst(r, {X: terms.F(xv)})
             e = terms.exact(t)
@@ -65,14 +129,13 @@ def rule_endpoints(ctx, F, rule="R1"):
 def rule_affine(ctx, F, rule="R2"):
     for ty in ("f32", "f64"):
         b = F.one(crate="mina_core", name="lerp", impl_trait=LERP, impl_self=ty)
-        ps = [p for p in summary(ctx, F, b) if p.outcome == "return"]
-        if len(ps) != 1:
-            ctx.ob(rule, "affine/%s" % ty, False, "unexpected shape", b["span"], what="lerp-shape")
+        fr = lerp_formula(ctx, rule, "affine/%s" % ty, F, b)
+        if fr is None:
             continue
         try:
-            p = terms.poly(ps[0].ret)
+            p = terms.poly(fr)
         except terms.NotPoly:
-            ctx.ob(rule, "affine/%s" % ty, False, "lerp is not a polynomial: %s" % show(ps[0].ret), b["span"],
+            ctx.ob(rule, "affine/%s" % ty, False, "lerp is not a polynomial: %s" % show(fr), b["span"],
                    what="not-polynomial")
             continue
         pa, pb = terms.p_atom(A), terms.p_atom(B)
@@ -97,12 +160,12 @@ def rule_integers(ctx, F, rule="R3"):
         if not re.fullmatch(r"[iu](8|16|32|64|128|size)", ty):
             continue
         have.add(ty)
-        ps = summary(ctx, F, b)
-        rets = [p for p in ps if p.outcome == "return"]
-        ok = len(rets) == 1
+        r = lerp_formula(ctx, rule, "integer/%s" % ty, F, b)
+        if r is None:
+            continue
+        ok = True
         detail = ""
         if ok:
-            r = rets[0].ret
             # (from_f32(round(V)) as Some).0  with V the f32 interpolation of (a as f32, b as f32, x)
             conv = r[1][1] if r[0] == "field" and r[1][0] == "variant" else None
             ok = conv is not None and conv[0] == "call" and \
